@@ -160,6 +160,10 @@ def union_enum_replay(pid, tier, seed, out, rng):
         if va.get("agree") is False and (obs.get("client") or {}).get("ok"):
             out.violation("%s:%s:via-any" % (pid, kind), "%s viewed through the dynamic `any` gives %s, direct parsing gives %s" % (
                 doc[:70], str(va.get("text") or va.get("err"))[:70], obs["client"]["ok"][:70]), rep)
+        for how, same in (obs.get("spellings") or {}).items():
+            if not same:
+                out.violation("%s:%s:spelling:%s" % (pid, kind, how), "%s: the verdict or value changes when the same document is read %s" % (
+                    doc[:70], "from a reader" if "reader" in how else "with its strings written as \\uXXXX escapes" if "escaped" in how else "from a byte slice"), rep)
         if kind == "union":
             got = judge_union(pid, c["members"], ex, doc, obs, c["ref"], out, rep)
             if got is not None and c.get("mech") and got == (c["ref"] != "reject") and got != (c["mech"] != "reject"):
